@@ -32,6 +32,7 @@ type VC struct {
 	strLits  map[string]string // literal text -> constant name
 	strOrder []string
 	theories map[string]bool
+	sp       *Specs
 	inputs   []InputVar // top-level inputs for model extraction
 	warnings []string
 	counters map[string]int
@@ -81,6 +82,14 @@ func (vc *VC) declFunGlobal(name string, args []string, ret string) {
 
 func (vc *VC) assertGlobal(s string) {
 	vc.globals = append(vc.globals, "(assert "+s+")")
+}
+
+func (vc *VC) assertGlobalOrLine(s string, global bool) {
+	if global {
+		vc.assertGlobal(s)
+	} else {
+		vc.lines = append(vc.lines, "(assert "+s+")")
+	}
 }
 
 func (vc *VC) fresh(hint, sort string) *Term {
@@ -139,6 +148,11 @@ func (vc *VC) strLit(s string) *Term {
 	if s == "" {
 		return mkRaw("sempty", SStr)
 	}
+	if vc.sp != nil {
+		if n, ok := vc.sp.StrConsts[s]; ok {
+			return mkRaw(n, SStr)
+		}
+	}
 	if n, ok := vc.strLits[s]; ok {
 		return mkRaw(n, SStr)
 	}
@@ -160,6 +174,14 @@ func smtQuoteComment(s string) string {
 func (vc *VC) strDecls() string {
 	var b strings.Builder
 	names := []string{"sempty"}
+	if vc.sp != nil {
+		for _, s := range vc.sp.StrOrder {
+			n := vc.sp.StrConsts[s]
+			fmt.Fprintf(&b, "(declare-const %s Str) ; %q\n", n, smtQuoteComment(s))
+			fmt.Fprintf(&b, "(assert (= (slen %s) (_ bv%d 64)))\n", n, len(s))
+			names = append(names, n)
+		}
+	}
 	for _, s := range vc.strOrder {
 		n := vc.strLits[s]
 		fmt.Fprintf(&b, "(declare-const %s Str) ; %q\n", n, smtQuoteComment(s))
@@ -179,8 +201,7 @@ func (vc *VC) render(prelude string, o *Obligation) string {
 	}
 	var b strings.Builder
 	b.WriteString("; obligation " + o.Name + "\n; " + o.Pos + " " + o.Info + "\n(set-logic ALL)\n")
-	b.WriteString(prelude)
-	b.WriteString(vc.strDecls())
+	b.WriteString(strings.Replace(prelude, ";;STRDECLS;;\n", vc.strDecls(), 1))
 	for _, g := range vc.globals {
 		b.WriteString(g)
 		b.WriteString("\n")
